@@ -71,7 +71,7 @@ class VUnit:
 
     def fn(self, file, name, impl=None, nth=0, ret=None, requires=(), ensures=(), loops=None, inserts=(),
            rules=(), subst=(), sig_subst=(), external_body=False, canary=True, rename=None, ret_type=None,
-           attrs='', body_override=None, decreases=None, opens_invariants=None, no_unwind=False, returns=None, post=(), opt_inserts=(), resubst=(), d5=None, sig_override=None, append=None, prepend=None):
+           attrs='', body_override=None, decreases=None, opens_invariants=None, no_unwind=False, returns=None, post=(), opt_inserts=(), resubst=(), d5=None, sig_override=None, append=None, prepend=None, opt_subst=(), opt_rules=()):
         """extract `fn name` and splice the contract. `rules`: names of rsx.rule_* to apply to the body.
         `subst`: [(literal, replacement, rulename)] literal body substitutions (each must match, logged as a rule).
         `loops`: {ordinal: 'invariant ..., decreases ..'} ; `inserts`: [(anchor, before|after|replace, text)]"""
@@ -94,6 +94,10 @@ class VUnit:
             if n == 0:
                 raise rsx.ExtractError('rule %s did not match in %s::%s' % (r, file, name))
             fired.append('%s x%d' % (r, n))
+        for r in opt_rules:
+            body, n = getattr(rsx, 'rule_' + r)(body)
+            if n:
+                fired.append('%s x%d' % (r, n))
         for s in subst:
             lit, rep, rn = s
             c = body.count(lit)
@@ -101,6 +105,12 @@ class VUnit:
                 raise rsx.ExtractError('lost anchor: substitution %r (%s) in %s::%s' % (lit, rn, file, name))
             body = body.replace(lit, rep)
             fired.append('%s x%d' % (rn, c))
+        for lit, rep, rn in opt_subst:
+            # model-function rewrites of std calls (S1/S2/S3): applied where the call occurs, skipped where the code no longer has it
+            c = body.count(lit)
+            if c:
+                body = body.replace(lit, rep)
+                fired.append('%s x%d' % (rn, c))
         for rx_, rep, rn in resubst:
             body, c = re.subn(rx_, rep, body)
             if c == 0:
